@@ -10,14 +10,22 @@ Decides (from the syntax trees of hailtop/batch/{backend,job,resource,batch}.py;
   R2  create_job: parents derive from `job._dependencies` through `_client_job` (written after create_job of the parent),
       input_files from `job._inputs` x copy_input, output_files from `_internal_outputs` x copy_internal_output followed by
       `_external_outputs` x copy_external_output; both recording sites in job.py put a foreign resource in `_inputs`
-      and a foreign job resource in the producer's `_internal_outputs`
-  R3  interpolation: handler returns '${BATCH_TMPDIR}' + shq(r._get_path('')), raises for unknown uids, is applied by one re.sub
-      over the union of the resource patterns to the given command, whose result is what `command()` stores
+      and a foreign job resource in the producer's `_internal_outputs`; the collection `parents=` iterates is the job's full
+      `_dependencies` (same elements; a filtered / reduced derivative is a violation) and, as a who-may-write rule over every module
+      of hailtop/batch, nothing ever removes an element from any job's `_dependencies` (remove / discard / pop / clear / -= / &= /
+      difference_update / re-assignment to a possible subset, also through a local alias): monotone between recording and submission
+  R3  interpolation: the handler's replacement, with local variables expanded and one-expression helpers inlined, is lexed as ONE bash
+      word with a three-state (unquoted / single / double quote) lexer and must be <expansion of BATCH_TMPDIR><path as literal text>:
+      shlex.quote of the whole path in unquoted position, or an escaping function (replace chain / translate table / re.sub over a
+      character class, composed as a letter-to-string homomorphism) that neutralises every character still special in the quoting
+      state the path is inserted in (dollar, back-tick, backslash and double quote inside double quotes) without mangling ordinary ones, quotes balanced at the end; it
+      raises for unknown uids, is applied by one re.sub over the union of the resource patterns to the given command, whose result is
+      what `command()` stores
   R4  distinctness: uid allocators return prefix + str(counter) and bump the counter on every call; allocation sites name the
       class that owns the counter; uid prefixes are prefix-free; patterns are built from the prefix; resources are registered and
       looked up under `_uid`, which is what `str(resource)` yields; job-output paths are functions of (job directory, value);
       per job one resource per value; the per-batch job-directory token allocator records the tokens it hands out
-Does not decide: quoting correctness of arbitrary commands; collisions created by renaming a resource after creation
+Does not decide: quoting inside the generated python3 -c wrapper of PythonJob; history expansion (`!`, off in `bash -c`); collisions created by renaming a resource after creation
 (`add_extension`) or by resource-group member names chosen by the user; random-name collisions of input files.
 """
 from __future__ import annotations
@@ -25,7 +33,7 @@ from __future__ import annotations
 import ast
 from typing import Dict, List, Optional, Tuple
 
-from engines import pyfacts as pf, strparts
+from engines import c1819facts as facts, pyfacts as pf, strparts
 from engines.common import AnalysisError, Ctx
 from rules.c17 import RecordingSite, call_pred, _is_attr, _nested_defs, _node, _stmts, _inside
 
@@ -34,9 +42,10 @@ META = dict(
     text='Sibling agreement between the writer and reader path expressions of the service back end, def-use of the create_job arguments, '
          'must-pass-through of the resource recording effects on the CFG of both recording sites, and structural checks of the uid / token '
          'allocators. Necessary conditions only: the property itself quantifies over all pipelines and runtime path strings.',
-    note='Trusted: CPython ast; engines/pyfacts CFG; str concatenation / f-string semantics; re.sub replaces exactly the matches. '
-         'Not decided: shell quoting of arbitrary commands, renaming after creation (add_extension), user-chosen resource-group file names.',
-    technique='static analysis: sibling agreement of normalised path expressions, def-use, CFG must-pass-through',
+    note='Trusted: CPython ast; engines/pyfacts CFG; str concatenation / f-string semantics; re.sub replaces exactly the matches; '
+         'bash word lexing rules (quote removal, backslash inside double quotes only before $ ` " \\ newline). Not decided: renaming after creation (add_extension), user-chosen resource-group file names.',
+    technique='static analysis: sibling agreement of normalised path expressions, def-use, CFG must-pass-through, who-may-write over a set attribute, '
+              'shell-word lexing of the literal replacement with escape helpers as letter-to-string homomorphisms over a finite character-class table',
     design_ref='DESIGN.md §3 C18',
 )
 
@@ -237,7 +246,7 @@ def _service(ctx: Ctx) -> None:
     pe = kw['parents']
     chain: List[str] = []
     cur: ast.AST = pe
-    for _ in range(4):
+    for _ in range(8):
         if isinstance(cur, ast.Name) and cur.id in body_defs:
             d = defs_of(cur.id)
             ctx.need(len(d) == 1 and isinstance(d[0], ast.Assign), f'{where}: `{cur.id}` has several definitions')
@@ -248,14 +257,20 @@ def _service(ctx: Ctx) -> None:
             chain.append(cur.elt.attr)
             cur = cur.generators[0].iter
             continue
+        if chain and isinstance(cur, ast.Call) and isinstance(cur.func, ast.Name) and cur.func.id in ('sorted', 'list', 'tuple') and len(cur.args) == 1 \
+                and all(k.arg in ('key', 'reverse') for k in cur.keywords):
+            cur = cur.args[0]  # a re-ordering of the parents: same elements
+            continue
         break
-    filtered = isinstance(cur, ast.ListComp) and len(cur.generators) == 1 and bool(cur.generators[0].ifs) and _is_attr(cur.generators[0].iter, jv, '_dependencies')
+    # the iterated collection must be the job's full dependency set, not a filtered / reduced derivative of it
+    rel = facts.derive(cur, lambda x: _is_attr(x, jv, '_dependencies'))
     empty = (isinstance(cur, ast.Constant) and cur.value is None) or (isinstance(cur, ast.List) and not cur.elts)
-    base_ok = _is_attr(cur, jv, '_dependencies')
-    ctx.need(base_ok or filtered or empty or isinstance(cur, (ast.Attribute, ast.Name)), f'{where}: parents=`{pf.nsrc(pe)}` not recognised')
+    base_ok = rel == 'same'
+    ctx.need(rel in ('same', 'subset') or empty or isinstance(cur, (ast.Attribute, ast.Name)), f'{where}: parents=`{pf.nsrc(pe)}` not recognised')
+    reduced = f' (the iterated collection is a filtered / reduced derivative that can lack elements of {jv}._dependencies; e.g. {_DEP_STORY})' if rel == 'subset' else ''
     ctx.check(base_ok and chain == ['_async_job', '_client_job'], 'R2', f'{where}::parents',
               f'parents resolves to the projection {list(reversed(chain))} of `{pf.nsrc(cur)}`; expected `._client_job._async_job` of every job in {jv}._dependencies: '
-              f'the consumer is not submitted as a child of the producer and may start before the upload', m.path, cj.lineno)
+              f'the consumer is not submitted as a child of the producer and may start before the upload{reduced}', m.path, cj.lineno)
     res = [t.id for st in _stmts(loop) if isinstance(st, ast.Assign) and st.value is cj for t in st.targets if isinstance(t, ast.Name)]
     ctx.need(len(res) == 1, f'{where}: create_job result is not bound to a name')
     marks = [st for st in _stmts(loop) if isinstance(st, ast.Assign) and len(st.targets) == 1 and _is_attr(st.targets[0], jv, '_client_job')]
@@ -298,6 +313,48 @@ def _service(ctx: Ctx) -> None:
               f'`{pf.nsrc(comp[0])}` passes {got} for parameters {sigs[0]}: code and argument files are written under one directory and read from the other',
               m.path, comp[0].lineno)
     ctx.unit('functions', 5)
+
+
+BATCH_DIR = 'hail/python/hailtop/batch'
+_DEP_STORY = ('with C reading A.ofile and B.ofile, B reading A.ofile (or B.depends_on(A)), B always_run and A failing, C is submitted with parents=[B] only, '
+              'becomes runnable when B finishes and downloads a file A never uploaded')
+
+
+def _deps_monotone(ctx: Ctx) -> None:
+    """Between recording (resource mention / depends_on) and submission nothing may remove an element from any job's `_dependencies`:
+    ServiceBackend._async_run builds `parents=` from that set.  Who-may-write rule over every module of hailtop/batch."""
+    n_files = 0
+    for rel in pf.walk_py([BATCH_DIR], exclude=(BATCH_DIR + '/docs',)):
+        m = pf.load(rel)
+        n_files += 1
+        for u in facts.set_uses(m, '_dependencies'):
+            qual = m.qualname(u.func) if u.func is not None else '<module>'
+            stmt = pf.nsrc(u.stmt) if u.stmt is not None else pf.nsrc(u.node)
+            if isinstance(u.stmt, (ast.For, ast.AsyncFor, ast.If, ast.While, ast.With, ast.FunctionDef, ast.AsyncFunctionDef, ast.ClassDef)):
+                stmt = pf.nsrc(u.node)
+            cons = f'{rel}::{qual}::{stmt}'
+            ctx.need(u.kind != 'unknown', f'{cons}: use of `_dependencies` not analysed ({u.why})')
+            if u.kind == 'read':
+                continue
+            if u.kind == 'shrink':
+                ctx.bad('R2', cons, f'`{stmt}` in {qual}: {u.why}. A producer recorded in `_dependencies` by a resource mention / depends_on can be dropped again before '
+                        f'ServiceBackend._async_run builds `parents=` from that set, so the consumer is not submitted as a child of the producer: {_DEP_STORY}',
+                        m.path, getattr(u.stmt, 'lineno', 0))
+            else:
+                ctx.ok('R2', cons, u.why)
+    ctx.unit('files_scanned_for_dependency_writes', n_files)
+    # positive control: the classifier sees the removal idioms
+    ctl = pf.Module('<control>', '<control>', '', ast.parse(
+        'def f(j, implied):\n'
+        '    j._dependencies -= implied\n'
+        '    j._dependencies.discard(implied)\n'
+        '    j._dependencies = {d for d in j._dependencies if d not in implied}\n'
+        '    deps = j._dependencies\n'
+        '    deps.difference_update(implied)\n'
+        '    j._dependencies.add(implied)\n'))
+    kinds = sorted(u.kind for u in facts.set_uses(ctl, '_dependencies') if u.kind != 'read')
+    ctx.need(kinds == ['grow', 'shrink', 'shrink', 'shrink', 'shrink'], f'internal: positive control of the `_dependencies` write classifier gave {kinds}')
+    ctx.ok('R2', 'control::removal idioms of a set attribute are recognised', kinds, nontrivial=False)
 
 
 def _get_paths(ctx: Ctx) -> None:
@@ -404,32 +461,114 @@ def _interpolation(ctx: Ctx) -> None:
     rv = rets[0].value
     site = RecordingSite(ctx, m, 'Job._interpolate_command.handler')
     R = site.R
-    ps = _parts(rv)
-    VAR = '${BATCH_TMPDIR}'
+    VARNAME = 'BATCH_TMPDIR'
+    rvx = facts.inline_expr_calls(m, facts.expand_locals_except(h, rv, stop={R, mo}), cls='Job')
+    ps = _parts(rvx)
 
     def raw_path(e: ast.AST) -> bool:
         return isinstance(e, ast.Call) and isinstance(e.func, ast.Attribute) and e.func.attr == '_get_path' and pf.nsrc(e.func.value) == R \
             and len(e.args) == 1 and not e.keywords and pf.const_str(e.args[0]) == ''
 
     def is_quote(e: ast.AST) -> bool:
-        return isinstance(e, ast.Call) and isinstance(e.func, ast.Name) and imports.get(e.func.id) == 'shlex.quote' and len(e.args) == 1 and not e.keywords
+        if not (isinstance(e, ast.Call) and len(e.args) == 1 and not e.keywords):
+            return False
+        if isinstance(e.func, ast.Name):
+            return imports.get(e.func.id) == 'shlex.quote'
+        return pf.dotted(e.func) == 'shlex.quote' and imports.get('shlex') == 'shlex'
 
-    verdict = None  # 'ok' | message
-    if len(ps) == 2 and ps[0] == ('lit', VAR) and ps[1][0] == 'expr':
-        e = ast.parse(ps[1][1], mode='eval').body
-        if is_quote(e) and raw_path(e.args[0]):  # type: ignore[attr-defined]
-            verdict = 'ok'
-        elif raw_path(e):
-            verdict = 'the path is not shell-quoted (a resource named `a b` splits into two words)'
-    elif len(ps) == 1 and ps[0][0] == 'expr':
-        e = ast.parse(ps[0][1], mode='eval').body
-        if is_quote(e) and any(isinstance(x, ast.Constant) and isinstance(x.value, str) and VAR in x.value for x in ast.walk(e)):
-            verdict = 'the variable reference itself is quoted, so the shell does not expand ${BATCH_TMPDIR}'
-        elif raw_path(e) or (is_quote(e) and raw_path(e.args[0])):  # type: ignore[attr-defined]
-            verdict = 'the ${BATCH_TMPDIR} prefix is missing: the command refers to a path relative to /'
-    ctx.need(verdict is not None, f'{where}.handler: return value `{pf.nsrc(rv)}` not recognised')
+    def mentions_var(e: ast.AST) -> bool:
+        return any(isinstance(x, ast.Constant) and isinstance(x.value, str) and VARNAME in x.value for x in ast.walk(e))
+
+    # The replacement must reach bash as ONE word  <expansion of BATCH_TMPDIR><the path as literal text>.  The literal pieces are lexed with a
+    # three-state shell lexer; the path piece is classified by how it is protected in the state the lexer is in at that point.
+    lx = facts.ShellLexer()
+    seq: List[Tuple[str, object, str]] = []   # ('var', name, state) | ('char', c, state) | ('path', transform, state)
+    verdict: Optional[str] = None   # None = undecided so far, 'ok', or the defect
+    try:
+        for kind, txt in ps:
+            n0 = len(lx.items)
+            if kind == 'lit':
+                lx.feed(txt)
+                seq += lx.items[n0:]
+                continue
+            e = ast.parse(txt, mode='eval').body
+            ctx.need(not lx.pending_backslash, f'{where}.handler: a backslash directly precedes `{txt}` in `{pf.nsrc(rv)}` (not analysed)')
+            if is_quote(e):
+                inner = e.args[0]  # type: ignore[attr-defined]
+                if raw_path(inner):
+                    seq.append(('path', 'shq', lx.state))
+                elif mentions_var(inner) and any(raw_path(x) for x in ast.walk(inner)):
+                    seq.append(('path', 'shq-var', lx.state))
+                elif is_quote(inner) and raw_path(inner.args[0]):
+                    seq.append(('path', 'shq-twice', lx.state))
+                elif facts.char_hom(inner, raw_path, m) is not None:
+                    seq.append(('path', 'shq' if facts.char_hom(inner, raw_path, m)[0].is_identity() else 'shq-esc', lx.state))  # type: ignore[index]
+                else:
+                    raise facts.WordError(f'`{txt}` quotes something that is not the path')
+            elif raw_path(e):
+                seq.append(('path', 'raw', lx.state))
+            elif isinstance(e, ast.Call) and pf.dotted(e.func) == 'json.dumps' and imports.get('json') == 'json' and len(e.args) == 1 and not e.keywords and raw_path(e.args[0]):
+                # a JSON string literal: double quotes around the text with " and \ (and control characters) backslash-escaped
+                lx.feed('"')
+                seq.append(('path', facts.Hom({'"': '\\"', '\\': '\\\\', '\n': '\\n', '\t': '\\t', '\r': '\\r'}), lx.state))
+                lx.feed('"')
+            else:
+                hm = facts.char_hom(e, raw_path, m)
+                if hm is None:
+                    raise facts.WordError(f'`{txt}` is not a recognised transform of {R}._get_path(\'\')')
+                seq.append(('path', hm[0], lx.state))
+    except facts.WordError as ex:
+        raise AnalysisError(f'{where}.handler: return value `{pf.nsrc(rv)}` not recognised: {ex}') from ex
+    paths = [x for x in seq if x[0] == 'path']
+    ctx.need(len(paths) == 1, f'{where}.handler: return value `{pf.nsrc(rv)}` not recognised ({len(paths)} path parts)')
+    _, tr, pstate = paths[0]
+    vars_ = [x for x in seq if x[0] == 'var']
+    chars = [x for x in seq if x[0] == 'char']
+    Uq, Sq, Dq = facts.U, facts.S, facts.D
+    if tr == 'shq-var':
+        verdict = 'the variable reference itself is quoted, so the shell does not expand ${BATCH_TMPDIR}'
+    elif tr in ('shq-twice', 'shq-esc'):
+        verdict = ('the path is quoted twice' if tr == 'shq-twice' else 'the path is escaped and then quoted') + \
+            ': shlex.quote makes every character of its argument literal, so the quote / escape characters added first become part of the path the command ' \
+            'touches (resource named `per sample.tsv` / `say "cheese".txt`) while input_files/output_files use the plain name'
+    elif lx.state != Uq or lx.pending_backslash:
+        verdict = f'the replacement ends inside {lx.state} text: the quote stays open and swallows the rest of the command'
+    elif not vars_ and not chars:
+        verdict = 'the ${BATCH_TMPDIR} prefix is missing: the command refers to a path relative to /'
+    else:
+        ctx.need(len(vars_) == 1 and vars_[0][1] == VARNAME and not chars and seq.index(vars_[0]) < seq.index(paths[0]),
+                 f'{where}.handler: return value `{pf.nsrc(rv)}` not recognised (expected the word <${{{VARNAME}}}><path>, found literal text / other variables)')
+        if vars_[0][2] == Sq:
+            verdict = 'the variable reference is inside single quotes, so the shell does not expand ${BATCH_TMPDIR}'
+    if verdict is None:
+        def show(cs: List[str]) -> str:
+            return ' '.join({' ': '<space>', '\t': '<tab>', '\n': '<newline>'}.get(c, c) for c in cs)
+        if tr == 'shq':
+            verdict = 'ok' if pstate == Uq else f'shlex.quote output is placed inside {pstate} text: its quote characters become part of the path and the name is no longer protected'
+        elif tr == 'raw':
+            if pstate == Uq:
+                verdict = 'the path is not shell-quoted (a resource named `a b` splits into two words)'
+            else:
+                act = list(facts.DQ_SPECIAL) if pstate == Dq else ["'"]
+                verdict = (f'the path is inserted inside {pstate} text without escaping: {show(act)} in a resource name stay active; e.g. the resource named '
+                           f'`{facts.WITNESS[act[0]]}` is substituted by a word that bash does not read as its literal path')
+        else:
+            active, mangled = facts.hom_in_state(tr, pstate)  # type: ignore[arg-type]
+            escaped = sorted(k for k, v in tr.table.items() if v != k)  # type: ignore[union-attr]
+            if active:
+                w = next((c for c in '$`\\"\' ' if c in active), active[0])
+                verdict = (f'inside {pstate} text the helper escapes only {show(escaped) or "nothing"}; {show(active)} in a resource name stay active in bash. Resource names are user '
+                           f'supplied: for the resource named `{facts.WITNESS.get(w, w)}` the word bash evaluates differs from the path in input_files/output_files'
+                           + (' (`$US` is expanded, so the command touches …/cost_in_.tsv while the file is copied from/to …/cost_in_$US.tsv)' if w == '$' else ''))
+            elif mangled:
+                verdict = (f'inside {pstate} text the escaping of {show(mangled)} is not undone by bash (a backslash before an ordinary character is kept inside double quotes, or the '
+                           f'character is rewritten): the path the command touches differs from the path in input_files/output_files')
+            else:
+                verdict = 'ok'
     ctx.check(verdict == 'ok', 'R3', f'{where}.handler::replacement',
-              f"a resource reference is replaced by `{pf.nsrc(rv)}`; expected '${{BATCH_TMPDIR}}' + shlex.quote({R}._get_path('')): {verdict}", m.path, rets[0].lineno)
+              f"a resource reference is replaced by `{pf.nsrc(rv)}`; expected ${{BATCH_TMPDIR}} followed by the path {R}._get_path('') as one literal shell word "
+              f"(e.g. '${{BATCH_TMPDIR}}' + shlex.quote(...)): {verdict}", m.path, rets[0].lineno,
+              detail={'path_state': pstate, 'transform': tr if isinstance(tr, str) else tr.table})  # type: ignore[union-attr]
     # lookup and unknown uid
     rdef = pf.single_def(h, R)
     ctx.need(isinstance(rdef, ast.Call) and isinstance(rdef.func, ast.Attribute) and rdef.func.attr == 'get' and pf.nsrc(rdef.func.value) == 'self._batch._resource_map'
@@ -732,14 +871,16 @@ def run(ctx: Ctx) -> None:
     ctx.rule('R1', 'upload location == download location (remote and local side), external outputs and staged inputs use the same expressions, BATCH_TMPDIR is the '
                    'local directory, _compile gets (local, remote), every _get_path(directory) is directory + suffix', 12)
     ctx.rule('R2', 'create_job: parents from _dependencies via _client_job, input_files from _inputs, output_files from _internal_outputs + _external_outputs; '
-                   'both recording sites record foreign resources as inputs / producer internal outputs', 15)
-    ctx.rule('R3', "interpolation handler returns '${BATCH_TMPDIR}' + shq(r._get_path('')), raises for unknown uids, one re.sub over all resource patterns, "
-                   'command() stores the result', 7)
+                   'both recording sites record foreign resources as inputs / producer internal outputs; parents iterate the full _dependencies and no statement '
+                   'of hailtop/batch removes an element from any _dependencies set', 19)
+    ctx.rule('R3', "interpolation handler's replacement is one bash word <${BATCH_TMPDIR}><path as literal text> (shlex.quote, or an escape covering every character "
+                   'active in the quoting state of the insertion point), raises for unknown uids, one re.sub over all resource patterns, command() stores the result', 7)
     ctx.rule('R4', 'uids fresh per allocation, allocation through the owning class, prefix-free prefixes, patterns = prefix + digits, str(resource) = uid, registration under '
                    'uid, one resource per (job, name), job directory token recorded by its allocator', 28)
     ctx.assume('re.sub replaces exactly the non-overlapping matches and leaves all other text unchanged')
     ctx.assume('a job directory is unique within a batch iff its token is; renaming through add_extension and user-chosen group member names are outside the decided clause')
     _service(ctx)
+    _deps_monotone(ctx)
     _get_paths(ctx)
     _recording(ctx)
     _interpolation(ctx)
